@@ -433,6 +433,25 @@ def check_size(ctx: Ctx, path, name, mode, size, fit):
         for X in range(cols):
             hit = leaf_at(geo, X, Y)
             if hit is None:
+                # a cell that shows no leaf (margin, border, divider): whether the move is accepted is not constrained, but an accepted move
+                # leaves the cursor on the requested row
+                root, leaves = G.build(path)
+                if G.protocol:
+                    ctx.count("evaluations")
+                    try:
+                        root.render(size, True)
+                        ok = root.move_cursor_to_coords(size, X, Y)
+                        if ok is not False and ok is not None and ok:
+                            cc = root.get_cursor_coords(size)
+                            fl = _focus_leaf(root)
+                            if fl is not None and (not hasattr(fl, "move_cursor_to_coords") or not fl.selectable()):
+                                pass  # a widget without the method keeps its own fixed cursor (it "accepts" by protocol); an unselectable one has no cursor
+                            elif cc is None or cc[1] != Y:
+                                V("move-row", f"{name} {size}: move_cursor_to_coords({X},{Y}) (a cell showing no leaf) returned {ok!r} but the cursor is reported at {cc}", "no-leaf-cell", cell=(X, Y))
+                        elif ok is None:
+                            V("move-iff", f"{name} {size}: move_cursor_to_coords({X},{Y}) returned None (neither True nor False)", "returns-none", cell=(X, Y))
+                    except Exception as e:
+                        V("event-raises", f"{name} {size}: move_cursor_to_coords({X},{Y}) raised {type(e).__name__}: {e}", site=exc_site(e), cell=(X, Y))
                 continue
             lname, lx, ly = hit
             lf0 = by[lname]
@@ -548,6 +567,25 @@ def warm_walk(ctx: Ctx, V, path, name, size, geo, leaves0):
     urwid.CanvasCache.clear()
 
 
+def _focus_leaf(w):
+    """the widget at the end of the focus chain (decorations and containers followed down)"""
+    seen = 0
+    while seen < 50:
+        seen += 1
+        nxt = None
+        if hasattr(w, "focus") and not isinstance(w, (urwid.Edit, urwid.Text)):
+            try:
+                nxt = w.focus
+            except Exception:
+                nxt = None
+        if nxt is None:
+            nxt = getattr(w, "original_widget", None)
+        if nxt is None or nxt is w:
+            return w
+        w = nxt
+    return w
+
+
 def cursor_agrees(ctx, V, root, size, when):
     if not hasattr(root, "get_cursor_coords"):
         return
@@ -600,7 +638,8 @@ def run(tier, R):
         "coverage": cov,
         "assumptions": [
             "fit precondition = every leaf rendered exactly once and its painted rectangle fully visible in the top canvas (verified per size; other sizes are skipped)",
-            "cells that show no leaf (padding, borders, dividers, filler) are unconstrained for hit-testing and cursor moves",
+            "cells that show no leaf (padding, borders, dividers, filler) are unconstrained for hit-testing and for whether a cursor move is accepted; an accepted move there "
+            "must still leave the cursor on the requested row (unless the focus leaf has a fixed cursor or none), and the answer is True or False, never None",
             "a real leaf's acceptance of a local cell is asked of a freshly built twin of that leaf",
             "'left'/'right' column arguments of move_cursor_to_coords are not enumerated",
         ],
